@@ -28,6 +28,8 @@ const (
 	Pass Verdict = "pass"
 	Fail Verdict = "fail"
 	Skip Verdict = "skip"
+	// Panicked: a panic other than the T's own end-of-test mechanism escaped.
+	Panicked Verdict = "panic"
 )
 
 // Result of one subtest (one script).
@@ -35,6 +37,7 @@ type Result struct {
 	Name    string
 	Verdict Verdict
 	Log     string
+	Panic   string
 }
 
 type sentinel struct{ kind string }
@@ -124,7 +127,11 @@ func (t *T) Run(name string, f func(testscript.T)) {
 		defer func() {
 			if r := recover(); r != nil {
 				if _, ok := r.(sentinel); !ok {
-					panic(r)
+					// a panic escaping the subtest: testing.T would report it and fail
+					// the binary; it is recorded instead of crashing the check
+					res.Verdict = Panicked
+					res.Panic = fmt.Sprint(r)
+					res.Log = child.log.String()
 				}
 			}
 		}()
